@@ -55,12 +55,12 @@ def run(tier):
         inputs.append(("lang:canonical", a))
         for st, src in c08.styles(a).items():
             inputs.append(("lang:" + st, src))
-    files = sorted(glob.glob("/repo/std/**/*.glu", recursive=True) + glob.glob("/repo/tests/pass/*.glu") + glob.glob("/repo/examples/**/*.glu", recursive=True))
+    files = sorted(glob.glob(vlib.REPO + "/std/**/*.glu", recursive=True) + glob.glob(vlib.REPO + "/tests/pass/*.glu") + glob.glob(vlib.REPO + "/examples/**/*.glu", recursive=True))
     if tier == "quick":
         files = files[::2]
     for fpath in files:
         text = open(fpath, encoding="utf-8").read()
-        name = os.path.relpath(fpath, "/repo")
+        name = os.path.relpath(fpath, vlib.REPO)
         inputs.append(("file:%s" % name, text))
         for kind in (["crlf"] if tier == "quick" else ["crlf", "trailing-blanks", "blank-lines"]):
             inputs.append(("file:%s:%s" % (name, kind), perturb(text, kind)))
